@@ -53,7 +53,7 @@ class Book:
     def formula(self, s, done, failing):
         rng = self.rng
         a, b, c = self.operand(s, done), self.operand(s, done), self.operand(s, done)
-        forms = ['ref', 'add', 'add', 'mul', 'sum', 'if3', 'iferr', 'div']
+        forms = ['ref', 'add', 'add', 'mul', 'sum', 'if3', 'iferr', 'div', 'area', 'area']
         if failing:
             forms += ['fail']
         f = rng.choice(forms)
@@ -62,12 +62,30 @@ class Book:
             return ('formula', '=' + t, toks)
         if f == 'fail':
             return ('formula', '=(1/0)', ['div', 'lit', 'I1', 'lit', 'I0'])
+        if f == 'area':
+            # SUM over a rectangle of already placed cells, possibly reaching beyond the used range (blank cells, overridable)
+            ts = rng.randrange(self.ns)
+            cand = [p for p in done if p[0] == ts]
+            if cand:
+                a0 = rng.choice(cand)
+                c2 = a0[1] + rng.randint(0, 2)
+                r2 = a0[2] + rng.randint(0, 2)
+                cells = [(ts, c, r) for r in range(a0[2], r2 + 1) for c in range(a0[1], c2 + 1)]
+                if all((p in done) or p[1] >= self.w[ts] or p[2] >= self.h[ts] for p in cells):
+                    pre = '' if ts == s else TITLES[ts] + '!'
+                    text = '=SUM(%s%s%d:%s%d)' % (pre, LETTERS[a0[1]], a0[2] + 1, LETTERS[c2], r2 + 1)
+                    toks = ['lit', 'I0']
+                    for p in reversed(cells):       # SUM over the area = nested two-argument sums (text, booleans, blanks ignored)
+                        toks = ['sum', 'ref', str(code(*p))] + toks
+                    return ('formula', text, toks)
         if f == 'add':
             return ('formula', '=(%s+%s)' % (a[0], b[0]), ['add'] + a[1] + b[1])
         if f == 'mul':
             return ('formula', '=(%s*%s)' % (a[0], b[0]), ['mul'] + a[1] + b[1])
         if f == 'div':
-            return ('formula', '=(%s/%s)' % (a[0], b[0]), ['div'] + a[1] + b[1])
+            # denominators 1, 2, 4 keep every value dyadic (sums stay exact in every summation algorithm); 0 is the failing cell
+            d = rng.choice([1, 2, 4, 2, 0])
+            return ('formula', '=(%s/%d)' % (a[0], d), ['div'] + a[1] + ['lit', 'I%d' % d])
         if f == 'sum':
             return ('formula', '=SUM(%s,%s)' % (a[0], b[0]), ['sum'] + a[1] + b[1])
         if f == 'if3':
@@ -120,11 +138,22 @@ def gen_ops(book, rng, n, p_set=0.4):
     pool = [gen_target(book, rng) for _ in range(6)]      # repeated cells on purpose
     pick = lambda: rng.choice(pool) if rng.random() < 0.7 else gen_target(book, rng)
     style = lambda: rng.choice(['num', 'a1', 'named'])
-    val = lambda: rng.choice([0, 1, 4, 9, 11, 20, -3, 2.5, 0.25, 'ov', '', True])
+    val = lambda: rng.choice([0, 1, 4, 9, 11, 20, -3, 2.5, 0.25, 'ov', '', True, False, 1.0, 0.0])
+    twins = {1: [True, 1.0], True: [1, 1.0], 0: [False, 0.0], False: [0, 0.0]}
+    last = {}
+
+    def write():
+        t = pick()
+        v = val()
+        # values that are equal in Python but distinct for Excel (1 / TRUE / 1.0, 0 / FALSE / 0.0): a later write must still win
+        if t in last and type(last[t]) in (int, bool, float) and last[t] in twins and rng.random() < 0.4:
+            v = rng.choice([x for x in twins[last[t]] if type(x) is not type(last[t])])
+        last[t] = v
+        return t, v, style()
     for _ in range(n):
         k = rng.random()
         if k < p_set:
-            ops.append(('set', [(pick(), val(), style()) for _ in range(rng.randint(1, 4))]))
+            ops.append(('set', [write() for _ in range(rng.randint(1, 4))]))
         elif k < p_set + (1 - p_set) * 0.55:
             ops.append(('get', pick(), style()))
         elif k < p_set + (1 - p_set) * 0.85:
